@@ -67,6 +67,9 @@ def build(shape, eoe):
         p.add_argument("--u", type=Union[int, List[str], Dict[str, float]])
         p.add_argument("--any", type=Any)
         p.add_argument("--flag", action="store_true")
+        from jsonargparse import ActionYesNo
+
+        p.add_argument("--yn", action=ActionYesNo, default=False)
         p.add_argument("pos", type=int, nargs="?")
     elif shape == "groups":
         @dataclasses.dataclass
@@ -170,6 +173,7 @@ BAD = ["", " ", "1.5x", "[1,", "{", "}", "]", "[1, 2", '{"k": }', "{a: 1", "- x"
        '{"a": {"zz": 1}}', '{"a": 5}', '{"b": {"sub2": "zz"}}', '{"b": {"c": 5}}', '{"zz": 1}', '{"g": 5}', '{"g": {"zz": 1}}', '{"dc": 5}', '{"dc": {"inner": 5}}', '{"dc": {"lst": [5]}}',
        '{"m": {"class_path": "SubA", "init_args": {"p": "x"}}}', '{"i": "x"}', '{"i": null}', '{"li": 5}', '{"li+": 5}', '{"li+": [1]}', '{"d": {"k": "x"}}', '{"t": [1]}', '{"__path__": 1}',
        '{"g": {"h": {"y": .inf}}}', '{"g": {"h": {"y": -.inf}}}', '{"g": {"h": {"y": 1e999}}}', '{"g": {"h": {"y": .nan}}}', '{"i": .inf}', '{"li": [.inf]}', '{"dc": {"inner": {"a": .inf}}}', '{"f": .inf}',
+       "\u00b2", "-\u00b2", "\u2460\u2461", "9" * 4400, "-" + "9" * 4400, '{"i": \u00b2}', '{"dc": "\u00b2"}', '{"dc": {"inner": "\u00b2"}}',
        '{"i": 1, "i": 2}', '[]', '5', 'null', '"str"', "@file", "file:///x", "http://x", "~", "~nouser/x", "1" * 40, "9" * 400, "-", "--", "-x", "--zz", "-1", "1e400", "-.inf", ".nan",
        "\\", "'", '"', "a'b", 'a"b', "é", "😀", "\ud800", "a\x85b", "a b", "a=b", "a:b", "#", "a #b", "`", "$HOME", "${x}", "%s", "{0}", "[[]]", "{{}}", "[{}]", '{"": 1}', '{" ": 1}', '{"a.b": 1}',
        '{"a..b": 1}', '{".a": 1}', '{"a b": 1}', '{"+": 1}', '{"a+": 1}', '{"items": 1}', '{"keys": {"x": 1}}', '{"__dict__": 1}', '{"__class__": 1}']
@@ -193,8 +197,8 @@ BADPAIRS = {
              ("pd", ["@D@/ok.yaml", "@D@/missing"]), ("lp", ['["@D@/missing.yaml"]', "@D@/missing.txt", "5"]), ("n2", ["1", "x"]), ("choice", ["z", ""])],
     "classes": [("m", ["a.b", "os.nonexistent", "os.getcwd", FX + "Unrelated", FX + "CALLS", "", "5", "[]"]), ("m.class_path", ["a.b", "Unrelated", "", "5"]), ("m.init_args", ["5", "[1]", '{"zz": 1}']),
                 ("ms+", ["a.b", "5", '{"class_path": 1}']), ("h.init_args.inner", ["a.b", "5", "Unrelated"]), ("dm.k", ["a.b", "5"]), ("um", ["a.b", "x", "1.5"])],
-    "flat": [("i", ["x", "1.5", "", "[1]", "Infinity", "1e999", "NaN"]), ("f", ["x", "[1]"]), ("li", ["[Infinity]", "[1e999]"]), ("li", ["x", "{}", "[x]"]), ("d", ["x", "[1]", '{"k": "x"}']), ("t", ["[1]", '[1, "a", 2]', "x"]), ("oe", ["purple", "1"]), ("cfg", ["@D@/missing.yaml", "@D@", "{", "5", "[]"])],
-    "groups": [("dc", ["5", "[1]", '{"zz": 1}', '{"inner": 5}']), ("dc.lst", ["5", "[5]", '[{"zz": 1}]']), ("dc.items", ["5", '{"k": 5}']), ("g.h.y", ["0", "-1", "x", ".inf", "-.inf", "1e999", ".nan", "1.5", "Infinity", "-Infinity", "NaN"]), ("g.x", ["Infinity", "1e999", "NaN"]), ("dc.inner.a", ["Infinity", "1e999"]), ("dc.opt", ["5", '{"zz": 1}'])],
+    "flat": [("i", ["x", "1.5", "", "[1]", "Infinity", "1e999", "NaN", "\u00b2"]), ("yn", ["1", "0", "1.5", "[1]", "{}", "maybe", "null"]), ("f", ["x", "[1]"]), ("li", ["[Infinity]", "[1e999]"]), ("li", ["x", "{}", "[x]"]), ("d", ["x", "[1]", '{"k": "x"}']), ("t", ["[1]", '[1, "a", 2]', "x"]), ("oe", ["purple", "1"]), ("cfg", ["@D@/missing.yaml", "@D@", "{", "5", "[]"])],
+    "groups": [("dc", ["5", "[1]", '{"zz": 1}', '{"inner": 5}', "\u00b2", "-\u00b2"]), ("dc.lst", ["5", "[5]", '[{"zz": 1}]']), ("dc.items", ["5", '{"k": 5}']), ("g.h.y", ["0", "-1", "x", ".inf", "-.inf", "1e999", ".nan", "1.5", "Infinity", "-Infinity", "NaN"]), ("g.x", ["Infinity", "1e999", "NaN"]), ("dc.inner.a", ["Infinity", "1e999"]), ("dc.opt", ["5", '{"zz": 1}'])],
     "subcommands": [("cfg", ['{"a": 5}', '{"a": null}', "? a", '{"b": {"c": 5}}', '{"subcommand": "zz"}', '{"b": {"sub2": "zz"}}', '{"a": {"m": "a.b"}}'])],
     "links": [("tgt", ["1"]), ("m.init_args.p", ["1"]), ("src", ["x"]), ("hold.inner", ["a.b", "5"])],
 }
